@@ -985,6 +985,15 @@ def gen_ctrl_case(rng, kind):
     # the random part must not touch the loop counter; the last carried value counts iterations and caps the loop
     # (a lifted loop that never terminates would hang inside XLA)
     body['body'] = [ins for ins in body['body'] if not (ins[0] in ('put', 'decl') and ins[1] == cc and ins[2] == 'n')]
+    # written values must stay inside int32 over the iterations: no products in what a loop body writes
+    def _lin(e):
+      if 'mul' in e:
+        return {'add': [_lin(e['mul'][0]), _lin(e['mul'][1])]}
+      if 'add' in e:
+        return {'add': [_lin(e['add'][0]), _lin(e['add'][1])]}
+      return e
+
+    body['body'] = [(ins[:3] + [_lin(ins[3])] if ins[0] in ('put', 'decl') else ins) for ins in body['body']]
     nregs = sum(1 for ins in body['body'] if ins[0] in ('get', 'has', 'decl'))
     body['body'] += [['get', cc, 'n'], ['put', cc, 'n', {'add': [{'reg': nregs}, {'lit': 1}]}]]
     # keep the carry bounded: each carried value is old value + small term
@@ -1803,6 +1812,101 @@ def gen_modscopes_case(rng):
 
 
 # ------------------------------------------------------------------------------------------------
+# predicates / indices of every numeric kind
+# ------------------------------------------------------------------------------------------------
+
+PRED_SPECS = [
+  ('bool', True), ('bool', False), ('int', 1), ('int', 0), ('int', -1), ('int', 2), ('int', -7),
+  ('float', 0.0), ('float', -0.0), ('float', 0.5), ('float', -2.5), ('float', 'nan'), ('float', 'inf'), ('float', '-inf'),
+  ('np.int32', -3), ('np.int32', 0), ('np.float32', -0.0), ('np.float32', -1.5), ('np.bool_', True), ('np.bool_', False),
+  ('jnp.int32', -1), ('jnp.int32', 0), ('jnp.float32', 0.0), ('jnp.float32', 'nan'), ('jnp.float32', -3.0), ('jnp.bool_', True),
+]
+
+
+def make_pred(kind, v):
+  if isinstance(v, str):
+    v = float(v)
+  return {'bool': bool, 'int': int, 'float': float, 'np.int32': np.int32, 'np.float32': np.float32, 'np.bool_': np.bool_,
+          'jnp.int32': lambda a: jnp.asarray(a, jnp.int32), 'jnp.float32': lambda a: jnp.asarray(a, jnp.float32),
+          'jnp.bool_': lambda a: jnp.asarray(a, jnp.bool_)}[kind](v)
+
+
+def check_condpred_case(ctx, drv, case):
+  """nn.cond with a predicate of any Python / NumPy / JAX boolean or numeric kind (negative, zero, -0.0, NaN, inf),
+  concrete or traced (the whole apply under jax.jit with the predicate as an argument), and nn.switch with indices of
+  every integer kind (negative and too large ones are clamped).  Oracle: Python `if pred:` / `branches[clamp(index)]`
+  on the concrete value; the model takes the predicate as `pred != 0`."""
+  mode = case['mode']
+
+  def t(m, x):
+    n = m.get_variable('stats', 'n')
+    m.put_variable('stats', 'n', n + 1)
+    return x * 2 + n
+
+  def f(m, x):
+    n = m.get_variable('stats', 'n')
+    m.put_variable('stats', 'n', n + 10)
+    return x - 3
+
+  def g(m, x):
+    return x + m.get_variable('stats', 'n') * 0 + 100
+
+  def call(self, sel, x):
+    if mode == 'cond':
+      return nn.cond(sel, t, f, self, x)
+    return nn.switch(sel, [t, f, g][: case['nbranch']], self, x)
+
+  M = make_cls('PredM', [], {'__call__': nn.compact(call)})
+  sel = make_pred(*case['sel'])
+  vs = {'stats': {'n': I(case['n'])}}
+  x = I(case['x'])
+  run = lambda sel, x: M().apply(vs, sel, x, mutable=['stats'])
+  canon = lambda out: jax.tree.map(lambda v: np.asarray(v).tolist(), out)
+  got = lp.call(lambda: canon(jax.jit(run)(sel, x) if case['traced'] else run(sel, x)))
+  n0, x0 = case['n'], case['x']
+  if mode == 'cond':
+    truth = bool(np.asarray(sel) != 0)
+    assert truth == bool(sel)
+    want = (x0 * 2 + n0, {'stats': {'n': n0 + 1}}) if truth else (x0 - 3, {'stats': {'n': n0 + 10}})
+    model_req = ('cond', [True, True, [], truth, TFN, FFN, [x0], lp.scope_json({'stats': {'n': n0}}, ['stats'], [], [])])
+  else:
+    i = min(max(int(sel), 0), case['nbranch'] - 1)
+    want = [(x0 * 2 + n0, {'stats': {'n': n0 + 1}}), (x0 - 3, {'stats': {'n': n0 + 10}}), (x0 + 100, {'stats': {'n': n0}})][i]
+    model_req = ('switch', [True, True, [], int(sel), [TFN, FFN, GFN][: case['nbranch']], [x0], lp.scope_json({'stats': {'n': n0}}, ['stats'], [], [])])
+  ctx.case(case)
+  ctx.count('transform', f'{mode}-pred/' + ('traced' if case['traced'] else 'concrete'))
+  ctx.count('pred_kind', case['sel'][0])
+  where = json.dumps(case)
+  if got != ('ok', canon(want)):
+    ctx.violation(f'{mode}-predicate-truthiness', f'nn.{mode} with {"traced " if case["traced"] else ""}{case["sel"][0]} selector {case["sel"][1]!r}: got {got}, the Python control flow gives {canon(want)} on {where}', case)
+    return
+  mo = drv.run([model_req])[0]
+  if mo[0] != 'ok' or 'error' in mo[1] or (mo[1]['vals'][0], lp.vars_from_json(mo[1]['vars'])) != (want[0], want[1]):
+    ctx.disagreements_checked += 1
+    ctx.violation(f'{mode}-predicate-model-mismatch', f'model {mo} vs implementation {got} on {where}', case, concrete=False)
+
+
+TFN = {'body': [['get', 'stats', 'n'], ['put', 'stats', 'n', {'add': [{'reg': 0}, {'lit': 1}]}]], 'ret': [{'add': [{'mul': [{'arg': 0}, {'lit': 2}]}, {'reg': 0}]}]}
+FFN = {'body': [['get', 'stats', 'n'], ['put', 'stats', 'n', {'add': [{'reg': 0}, {'lit': 10}]}]], 'ret': [{'add': [{'arg': 0}, {'lit': -3}]}]}
+GFN = {'body': [['get', 'stats', 'n'], ['put', 'stats', 'n', {'reg': 0}]], 'ret': [{'add': [{'arg': 0}, {'lit': 100}]}]}
+
+
+def gen_condpred_cases(rng, n):
+  out = []
+  specs = list(PRED_SPECS)
+  rng.shuffle(specs)
+  for k in range(n):
+    kind, v = specs[k % len(specs)]
+    if k % 3 == 2 and kind not in ('float', 'np.float32', 'jnp.float32', 'bool', 'np.bool_', 'jnp.bool_'):
+      out.append({'kind': 'condpred', 'mode': 'switch', 'sel': [kind, rng.choice([-2, -1, 0, 1, 2, 5])], 'nbranch': rng.randrange(1, 4),
+                  'traced': rng.random() < 0.4, 'n': rng.randrange(0, 4), 'x': rng.randrange(1, 5)})
+    else:
+      out.append({'kind': 'condpred', 'mode': 'cond', 'sel': [kind, v], 'nbranch': 2, 'traced': rng.random() < 0.4,
+                  'n': rng.randrange(0, 4), 'x': rng.randrange(1, 5)})
+  return out
+
+
+# ------------------------------------------------------------------------------------------------
 # finding B2: a jitted *method* that creates auto-named sub-modules, called twice in one compact method
 # ------------------------------------------------------------------------------------------------
 
@@ -1941,6 +2045,8 @@ def run_case(ctx, drv, case):
     check_attrmods_case(ctx, case)
   elif k == 'modscopes':
     check_modscopes_case(ctx, drv, case)
+  elif k == 'condpred':
+    check_condpred_case(ctx, drv, case)
   else:
     ctx.notes.append(f'unknown corpus case kind {k}')
 
@@ -1953,8 +2059,8 @@ def run(ctx):
     ctx.corpus_replayed += 1
     run_case(ctx, drv, obj.get('case', obj))
   scale = 12 if thorough else 1
-  plan = [('modscopes', 40), ('attrmods', 12), ('multimethod', 10), ('deepchild', 14), ('setupchild', 12), ('autoname', 10), ('history', 30), ('jit', 26), ('remat', 36), ('mapvars', 32), ('cond', 32), ('switch', 28), ('while', 28)]
-  cases = []
+  plan = [('modscopes', 24), ('attrmods', 10), ('multimethod', 8), ('deepchild', 12), ('setupchild', 10), ('autoname', 8), ('history', 24), ('jit', 20), ('remat', 28), ('mapvars', 24), ('cond', 24), ('switch', 22), ('while', 22)]
+  cases = gen_condpred_cases(rng, len(PRED_SPECS) * scale)
   for what, n in plan:
     for _ in range(n * scale):
       if what in ('remat', 'mapvars', 'jit'):
